@@ -80,7 +80,45 @@ def rule_obligations():
         else:
             detail = "return is not tuple(<generator>)"
     obs.append(("get_functions_and_classes/one-__all__-entry-and-one-element-per-item", ok, detail))
+    obs.append(hoist_obligation())
     return obs
+
+
+def hoist_obligation():
+    """
+    G4: gen_module re-assembles the body as [what stays on top] + imports (`from __future__` first) + the rest.  The
+    module compiles only if nothing but the module docstring stays above a `from __future__` import, i.e. the element
+    kept on top is kept under a test that it IS the docstring (ast.get_docstring(parsed_ast)).
+    """
+    name = "gen_module/only-the-docstring-stays-above-the-hoisted-imports"
+    gm, _s, _p = extract.find_def("cdd.compound.gen_utils", "gen_module")
+    if gm is None:
+        return (name, None, "gen_module not found")
+    store = [n for n in ast.walk(gm) if isinstance(n, ast.Assign) and len(n.targets) == 1 and ast.unparse(n.targets[0]) == "parsed_ast.body"]
+    if len(store) != 1:
+        return (name, None, "expected exactly one store to parsed_ast.body, found %d" % len(store))
+    tup = [n for n in ast.walk(store[0].value) if isinstance(n, ast.Tuple) and len(n.elts) == 3]
+    first = tup[0].elts[0] if tup else None
+    if not (isinstance(first, ast.IfExp) and ast.unparse(first.body) == "parsed_ast.body[:1]" and ast.unparse(first.orelse) == "iter(())" and isinstance(first.test, ast.Name)):
+        return (name, None, "the element kept on top is not `parsed_ast.body[:1] if <name> else iter(())`: %s" % (ast.unparse(first)[:100] if first is not None else "not found"))
+    t = first.test.id
+    defs = [n for n in ast.walk(gm) if isinstance(n, (ast.Assign, ast.AnnAssign)) and any(isinstance(x, ast.Name) and x.id == t for x in ([n.target] if isinstance(n, ast.AnnAssign) else n.targets))]
+    if len(defs) == 1 and isinstance(defs[0].value, ast.Call) and ast.unparse(defs[0].value.func) in ("ast.get_docstring", "get_docstring") and defs[0].value.args and ast.unparse(defs[0].value.args[0]) == "parsed_ast":
+        return (name, True, "body[:1] is kept on top only when ast.get_docstring(parsed_ast) is non-empty, i.e. it is the module docstring; everything else follows the imports, `from __future__` first")
+    # the guard is something else: decide by running the real function (a refutation must replay on the real code)
+    why = hoist_replay()
+    if why:
+        return (name, False, "`%s` is bound to `%s`, not to ast.get_docstring(parsed_ast); replayed: %s" % (t, ast.unparse(defs[0].value)[:100] if defs else "?", why))
+    return (name, None, "`%s` is not bound to ast.get_docstring(parsed_ast) and the replay found no failing input" % t)
+
+
+HOIST_CASE = ("class", "{name}Gen", 1, "print('generated')\n", "future")
+
+
+def hoist_replay():
+    r = gen_case(HOIST_CASE)
+    bad = [w for k, w in r if k != "raises"]
+    return bad[0][:300] if bad else None
 
 
 # ---------------------------------------------------------------------------------------------------- bounded
@@ -192,7 +230,7 @@ def guard_case(phase):
 
 def bounded(tier):
     emits = ["class", "argparse", "json_schema", "sqlalchemy", "sqlalchemy_table"]
-    cases = list(itertools.product(emits, ("{name}Gen", "Cfg{name}"), (1, 2, 4) if tier == "quick" else (1, 2, 3, 4, 5), (None, "import os\n", '"""Module doc"""\n'), (False, True, "future")))
+    cases = list(itertools.product(emits, ("{name}Gen", "Cfg{name}"), (1, 2, 4) if tier == "quick" else (1, 2, 3, 4, 5), (None, "import os\n", '"""Module doc"""\n', "print('generated')\n"), (False, True, "future")))
     cases = [c for c in cases if not (c[3] and not c[4])]  # --prepend only matters together with --imports-from-file
     res = common.pmap(gen_case, cases)
     fails, raised = {}, 0
@@ -226,13 +264,15 @@ def main(tier, write_baseline=False):
         n, raised, fails = bounded(tier)
         run.bounded.append({
             "name": "gen over an option matrix + the CLI guard on an existing file (bounded, NOT counted as proved)",
-            "bound": "parse kind class x emit {class, argparse, json_schema, sqlalchemy, sqlalchemy_table} x 2 name templates x 1..%d symbols x prepend {none, import, docstring} x imports-from-file {off, typing import, __future__ import}, import inference off; 3 CLI runs onto an existing file (plain, ./-spelled and ~-spelled path). %d runs raised (out of domain: function/pydantic emit and import inference crash on the pinned tree)" % (4 if tier == "quick" else 5, raised),
+            "bound": "parse kind class x emit {class, argparse, json_schema, sqlalchemy, sqlalchemy_table} x 2 name templates x 1..%d symbols x prepend {none, import, docstring, expression statement} x imports-from-file {off, typing import, __future__ import}, import inference off; 3 CLI runs onto an existing file (plain, ./-spelled and ~-spelled path). %d runs raised (out of domain: function/pydantic emit and import inference crash on the pinned tree)" % (4 if tier == "quick" else 5, raised),
             "rule": "one gen call per option combination; non-trivial = gen returns",
             "evaluations": n, "distinct_nontrivial": n - raised,
             "failures": [{"kind": k[0], "emit": k[1], "what": v[1][:300]} for k, v in list(fails.items())[:5]],
         })
     for name, detail in refuted:
         cand = next((v for k, v in fails.items() if k[0] == "overwrote"), None)
+        if "gen_module/" in name:
+            cand = (HOIST_CASE, detail)
         run.violation(name, detail, failing_input=({"case": list(cand[0]), "what": cand[1]} if cand else None), solver_output={"rule": detail})
     if not refuted:
         for (kind, emit), (case, what) in fails.items():
